@@ -63,7 +63,10 @@ def gen_dump(rng):
 
     def stack_sample(tid, pid, with_thread_data):
         nf = rng.randrange(1, 9)
-        nested = [H.thd_data(pid, tid)] if with_thread_data else []
+        # (the thread-data record of a sample says which thread was SAMPLED: usually the emitting thread itself, but a
+        # sampler thread may walk another thread's stack - the line is still the emitting thread's line)
+        named = tid if rng.random() < 0.6 else rng.choice(tids + [undeclared])
+        nested = [H.thd_data(pid if named == tid else rng.choice((100, 200, 300, 777)), named)] if with_thread_data else []
         nested += [H.stk_uhdr(rng.choice((1, 5, 0x15)), nf)] + \
             [H.stk_udata([0x100000000 + 16 * j for j in range(q, min(q + 4, nf))]) for q in range(0, nf, 4)]
         return H.sampler(0x8 | (1 if with_thread_data else 0), 3, nested)
